@@ -1,6 +1,8 @@
 /* memshim -- LD_PRELOAD malloc accounting: peak live heap bytes.
  * Writes the running peak (decimal, fixed width) at offset 0 of the file named
  * by MEMSHIM_OUT whenever it has grown by >= 64 KiB (lbzip2 leaves via _exit).
+ * _exit() is interposed as well: the bytes still allocated at that moment are
+ * written as a second line ("retained at exit").
  */
 #define _GNU_SOURCE
 #include <dlfcn.h>
@@ -11,6 +13,7 @@
 #include <stdlib.h>
 #include <string.h>
 #include <unistd.h>
+#include <sys/syscall.h>
 
 static void *(*real_malloc)(size_t);
 static void *(*real_calloc)(size_t, size_t);
@@ -105,4 +108,20 @@ void free(void *p)
   if (!real_free) resolve();
   account(-(long long)malloc_usable_size(p));
   real_free(p);
+}
+
+void _exit(int status)
+{
+  char buf[64];
+  int n;
+  long long l = __atomic_load_n(&live, __ATOMIC_RELAXED);
+  long long p = __atomic_load_n(&peak, __ATOMIC_RELAXED);
+  report(p);
+  if (outfd >= 0) {
+    n = snprintf(buf, sizeof buf, "%020lld\n", l);
+    (void)!pwrite(outfd, buf, n, 21);
+  }
+  syscall(SYS_exit_group, status);
+  for (;;)
+    ;
 }
